@@ -60,8 +60,8 @@ def showPV : PV → String
   | .flt none => "f:nan"
   | .flt (some r) => s!"f:{showRat r}"
   | .uns w n => s!"u:{wTag w}:{n}"
-  | .arr w xs => s!"a:{wTag w}:{showNats "," xs}"
-  | .barr bs => s!"ba:{showNats "," (bs.map (fun b => if b then 1 else 0))}"
+  | .arr w xs => s!"a:{wTag w}:{if xs.isEmpty then "-" else showNats "," xs}"
+  | .barr bs => s!"ba:{if bs.isEmpty then "-" else showNats "," (bs.map (fun b => if b then 1 else 0))}"
   | .str v => s!"s:{v}"
   | .dtype none => "dt:object"
   | .dtype (some w) => s!"dt:{wTag w}"
